@@ -118,7 +118,47 @@ theorem src_toCan_eq : ∀ f : Frame, Src.toCan f = toCan f := by
      -- the order in which the fields are or-ed into the identifier does not matter
      first | done | (simp only [Nat.or_assoc, Nat.or_comm, or_left_comm']; done) | ((repeat' split) <;> simp_all <;> (try omega)))
 
+
+/-! ## `Frame::to_usart_frame`
+
+`Src.toUsart f` (`UsartEncTranslator`): the five header bytes of the vector as accumulators `b0 … b4` updated exactly as the
+source updates `frame[0] … frame[4]` (`|=` and `=` with constant indices, the two `match`es on the kind of frame id, every
+cast `as u8` keeping the low 8 bits), then the recognised tail: copy of the first `data_len` data bytes (a panic when `data_len`
+exceeds the array) and the COBS encoding (the model's `Cobs.encode`). For **every** frame it computes what the model's `toUsart`
+does, so C09's layout and no-delimiter theorems are about the encoder as it reads now. -/
+
+theorem bit_shl_mod8 (b : Bool) (k : Nat) (hk : k ≤ 7) : (bit b <<< k) % 256 = bit b <<< k := by
+  have h : bit b ≤ 1 := by cases b <;> simp [bit]
+  have h2 : (2:Nat) ^ k ≤ 2 ^ 7 := Nat.pow_le_pow_right (by decide) hk
+  have h3 : bit b * 2 ^ k ≤ 1 * 2 ^ 7 := Nat.mul_le_mul h h2
+  rw [Nat.shiftLeft_eq]
+  apply Nat.mod_eq_of_lt
+  omega
+theorem bit_shl7_mod (b : Bool) : (bit b <<< 7) % 256 = bit b <<< 7 := bit_shl_mod8 b 7 (by decide)
+theorem bit_shl6_mod (b : Bool) : (bit b <<< 6) % 256 = bit b <<< 6 := bit_shl_mod8 b 6 (by decide)
+theorem bit_shl5_mod (b : Bool) : (bit b <<< 5) % 256 = bit b <<< 5 := bit_shl_mod8 b 5 (by decide)
+
+theorem nibble_mod8 (x : Nat) : ((x &&& 3840) >>> 8) % 256 = (x &&& 3840) >>> 8 := by
+  have : x &&& 3840 ≤ 3840 := Nat.and_le_right
+  rw [Nat.shiftRight_eq_div_pow]; omega
+
+theorem and255_mod (x : Nat) : (x &&& 255) % 256 = x &&& 255 := by
+  have : x &&& 255 ≤ 255 := Nat.and_le_right; omega
+
+theorem hibyte_mod (x : Nat) : ((x &&& 65280) >>> 8) % 256 = (x &&& 65280) >>> 8 := by
+  have : x &&& 65280 ≤ 65280 := Nat.and_le_right
+  rw [Nat.shiftRight_eq_div_pow]; omega
+
+theorem src_toUsart_eq : ∀ f : Frame, Src.toUsart f = toUsart f := by
+  first
+  | (intro f; simp only [Src.toUsart]; done)      -- not translated on this run (the definition is the model's)
+  | (intro f
+     simp only [Src.toUsart, toUsart, usartBody, bit_shl7_mod, bit_shl6_mod, bit_shl5_mod, nibble_mod8, and255_mod, hibyte_mod,
+       Nat.zero_or, ite_self]
+     first | done | (simp only [Nat.or_assoc, Nat.or_comm, or_left_comm']; done) | ((repeat' split) <;> simp_all <;> (try omega)))
+
 #print axioms src_fromUsart_eq
+#print axioms src_toUsart_eq
 #print axioms src_toCan_eq
 #print axioms src_fromCan_eq
 end Ross
